@@ -160,6 +160,14 @@ TFDrop ==
                         /\ CompleteFiles(e, written, hType)
                         /\ e.shp = e.plainShp /\ e.shx = e.plainShx
 
+\* C10 where the .shp approaches 2 GiB (2^30 words): every big record was accepted, and the shape of another type
+\* that would not even fit is refused for its TYPE (polyline file, multipoint offered)
+TGiga ==
+    /\ Ev("giga") /\ UNCHANGED << wvars, observed >>
+    /\ LET e == Rec[l]
+       IN  /\ e.ok = e.n /\ e.words <= 1073741824 /\ e.words + e.otherWords > 1073741824
+           /\ e.res = "mismatch" /\ e.req = 3 /\ e.act = 8
+
 \* A long export (thousands of records) on destinations whose every flush fails, as one event of counts: the
 \* arithmetic of proofs/WriterCounters and the fault rule of C12, without the byte-level model.
 TLongFlush ==
@@ -181,7 +189,7 @@ TLongFlush ==
                   /\ e.entries[k][3] = e.w
 
 Init == /\ l = 2 /\ WInit(TRUE) /\ observed = TRUE
-Next == TReset \/ TWrite \/ TFinalize \/ TDrop \/ TConsume \/ TConsumeRefused \/ TLongFlush \/ TFWrite \/ TFFinalize \/ THeal \/ TFDrop
+Next == TReset \/ TWrite \/ TFinalize \/ TDrop \/ TConsume \/ TConsumeRefused \/ TLongFlush \/ TGiga \/ TFWrite \/ TFFinalize \/ THeal \/ TFDrop
 Spec == Init /\ [][Next]_vars
 
 Accepted ==
